@@ -193,11 +193,28 @@ public:
         if( this->m_blocks.empty() 
             || !this->m_blocks.front()->blockAvailable() )
         {
-            this->m_blocks.push_front(
+            ReusableArenaBlockType* const   theNewBlock =
                 ReusableArenaBlockType::create(
                     this->getMemoryManager(),
-                    this->m_blockSize));
-            
+                    this->m_blockSize);
+
+            try
+            {
+                this->m_blocks.push_front(theNewBlock);
+            }
+            catch(...)
+            {
+                // The list could not allocate a node for the new
+                // block, so nothing refers to it: destroy it,
+                // instead of losing it and its storage.
+                XalanDestroy(
+                    this->getMemoryManager(),
+                    theNewBlock);
+
+                throw;
+            }
+
+
             assert( this->m_blocks.front() != 0 );
         }
 
